@@ -328,3 +328,137 @@ Ltac agree_step :=
       | |- Agree (match ?c with _ => _ end) (match ?c with _ => _ end) => destruct c
       end ].
 Ltac agree := repeat agree_step.
+
+(* ======================================================================= Hoare-style reasoning *)
+
+(* --------------------------------------------------------------- inversion of one monadic step (Hoare style) *)
+Lemma bind_inv {A B} (m : M A) (k : A -> M B) inp s r :
+  bind m k inp s = r -> exists a s1, m inp s = (a, s1) /\ k a inp s1 = r.
+Proof. unfold bind. destruct (m inp s) as [a s1]. intros H. exists a, s1. auto. Qed.
+Lemma ret_inv {A} (a : A) inp s a' s' : ret a inp s = (a', s') -> a' = a /\ s' = s.
+Proof. unfold ret. intros H. injection H. auto. Qed.
+Lemma get_inv inp s a' s' : get inp s = (a', s') -> a' = s /\ s' = s.
+Proof. unfold get. intros H. injection H. auto. Qed.
+Lemma upd_inv f inp s a' s' : upd f inp s = (a', s') -> s' = f s.
+Proof. unfold upd. intros H. injection H. auto. Qed.
+Lemma input_len_inv inp s a' s' : input_len inp s = (a', s') -> a' = length inp /\ s' = s.
+Proof. unfold input_len. intros H. injection H. auto. Qed.
+Lemma read_byte_inv inp s b s' : read_byte inp s = (b, s') ->
+  (nth_error inp (raw_end s) = Some b /\ raw_end s < length inp /\ s' = set_raw_end (S (raw_end s)) s)
+  \/ (length inp <= raw_end s /\ b = 0%N /\ s' = set_err true s).
+Proof.
+  unfold read_byte. destruct (nth_error inp (raw_end s)) eqn:E; intros H; injection H as <- <-.
+  - left. repeat split; auto. apply nth_error_Some. congruence.
+  - right. repeat split; auto. apply nth_error_None. exact E.
+Qed.
+
+Lemma sub_usize_ok site a b inp s : b <= a -> sub_usize site a b inp s = (a - b, s).
+Proof. intros H. unfold sub_usize. apply Nat.leb_le in H. rewrite H. reflexivity. Qed.
+Lemma dec_raw_end_ok site k inp s : k <= raw_end s -> dec_raw_end site k inp s = (tt, set_raw_end (raw_end s - k) s).
+Proof. intros H. unfold dec_raw_end. rewrite bind_get. unfold bind. rewrite sub_usize_ok by exact H. reflexivity. Qed.
+Lemma sub_u8_ok site a b inp s : (b <= a)%N -> sub_u8 site a b inp s = (N.sub a b, s).
+Proof. intros H. unfold sub_u8. apply N.leb_le in H. rewrite H. reflexivity. Qed.
+Lemma add_u8_ok site a b inp s : (a + b <= 255)%N -> add_u8 site a b inp s = (N.add a b, s).
+Proof. intros H. unfold add_u8. apply N.leb_le in H. rewrite H. reflexivity. Qed.
+Lemma index_ok site i inp s : i < length inp -> exists b, nth_error inp i = Some b /\ index site i inp s = (b, s).
+Proof.
+  intros H. unfold index. destruct (nth_error inp i) eqn:E.
+  - eexists; split; reflexivity.
+  - apply nth_error_None in E. lia.
+Qed.
+Lemma index_of_ok site l i inp s : i < length l -> exists b, nth_error l i = Some b /\ index_of site l i inp s = (b, s).
+Proof.
+  intros H. unfold index_of. destruct (nth_error l i) eqn:E.
+  - eexists; split; reflexivity.
+  - apply nth_error_None in E. lia.
+Qed.
+Lemma index_attr_ok site l i inp s : i < length l -> exists b, nth_error l i = Some b /\ index_attr site l i inp s = (b, s).
+Proof.
+  intros H. unfold index_attr. destruct (nth_error l i) eqn:E.
+  - eexists; split; reflexivity.
+  - apply nth_error_None in E. lia.
+Qed.
+Lemma slice_ok site a b inp s : a <= b -> b <= length inp -> slice site a b inp s = (firstn (b - a) (skipn a inp), s).
+Proof. intros H1 H2. unfold slice. apply Nat.leb_le in H1. apply Nat.leb_le in H2. rewrite H1, H2. reflexivity. Qed.
+Lemma slice_from_ok site a inp s : a <= length inp -> slice_from site a inp s = (skipn a inp, s).
+Proof. intros H1. unfold slice_from. apply Nat.leb_le in H1. rewrite H1. reflexivity. Qed.
+
+(* ---- loops ---- *)
+Lemma loop_rule {L A} inp (body : L -> M (ctl L A)) (I : L -> st -> Prop) (mu : L -> st -> nat)
+      (Q : option A -> st -> Prop) :
+  (forall x s r s', I x s -> body x inp s = (r, s') ->
+     match r with
+     | Continue x' => I x' s' /\ mu x' s' < mu x s
+     | Break => Q None s'
+     | Return a => Q (Some a) s'
+     end) ->
+  forall fuel x s r s', I x s -> mu x s < fuel -> loop fuel body x inp s = (r, s') -> Q r s'.
+Proof.
+  intros Hb. induction fuel as [|f IH]; intros x s r s' HI Hmu E.
+  - lia.
+  - cbn [loop] in E. apply bind_inv in E. destruct E as (c & s1 & E1 & E).
+    pose proof (Hb x s c s1 HI E1) as Hc. destruct c as [x'| |a].
+    + destruct Hc as [HI' Hlt]. eapply IH; eauto. lia.
+    + apply ret_inv in E. destruct E; subst. exact Hc.
+    + apply ret_inv in E. destruct E; subst. exact Hc.
+Qed.
+Lemma loop_in_rule {L A} inp (body : L -> M (ctl L A)) (I : L -> st -> Prop) (mu : L -> st -> nat)
+      (Q : option A -> st -> Prop) :
+  (forall x s r s', I x s -> body x inp s = (r, s') ->
+     match r with
+     | Continue x' => I x' s' /\ mu x' s' < mu x s
+     | Break => Q None s'
+     | Return a => Q (Some a) s'
+     end) ->
+  forall x s r s', I x s -> mu x s < length inp + 2 -> loop_in body x inp s = (r, s') -> Q r s'.
+Proof.
+  intros Hb x s r s' HI Hmu E. unfold loop_in in E. apply bind_inv in E. destruct E as (n & s1 & E1 & E).
+  apply input_len_inv in E1. destruct E1; subst. eapply loop_rule; eauto.
+Qed.
+Lemma for_range_rule {A} inp (body : nat -> M (option A)) (I : nat -> st -> Prop) (Q : A -> st -> Prop) :
+  forall n lo,
+  (forall i s r s', lo <= i -> i < lo + n -> I i s -> body i inp s = (r, s') ->
+     match r with Some a => Q a s' | None => I (S i) s' end) ->
+  forall s r s', I lo s -> for_range n lo body inp s = (r, s') ->
+     match r with Some a => Q a s' | None => I (lo + n) s' end.
+Proof.
+  induction n as [|n IH]; intros lo Hb s r s' HI E; cbn [for_range] in E.
+  - apply ret_inv in E. destruct E; subst. rewrite Nat.add_0_r. exact HI.
+  - apply bind_inv in E. destruct E as (c & s1 & E1 & E).
+    pose proof (Hb lo s c s1 (le_n _) ltac:(lia) HI E1) as Hc. destruct c as [a|].
+    + apply ret_inv in E. destruct E; subst. exact Hc.
+    + replace (lo + S n) with (S lo + n) by lia. eapply IH; [|exact Hc|exact E].
+      intros i s2 r2 s2' H1 H2. apply Hb; lia.
+Qed.
+
+(* reduce record projections of explicit states only *)
+Ltac pcbn :=
+  cbn [raw_start raw_end data_start data_end pending_attribute attribute number_attribute_returned err raw_tag
+       text_is_raw convert_null allow_cdata token panic oof
+       set_raw_start set_raw_end set_data_start set_data_end set_pending_attribute set_attribute
+       set_number_attribute_returned set_err set_raw_tag set_text_is_raw set_convert_null set_allow_cdata set_token
+       set_panic set_oof fst snd].
+
+Ltac inv_side := pcbn; lia.
+
+(* one symbolic-execution step on a hypothesis  E : m inp s = (a, s') *)
+Ltac inv_prim E :=
+  match type of E with
+  | ret _ _ _ = _ => apply ret_inv in E; destruct E as [-> ->]
+  | get _ _ = _ => apply get_inv in E; destruct E as [-> ->]
+  | upd _ _ _ = _ => apply upd_inv in E; match type of E with ?x = _ => subst x end
+  | input_len _ _ = _ => apply input_len_inv in E; destruct E as [-> ->]
+  | sub_usize _ _ _ _ _ = _ => rewrite sub_usize_ok in E by inv_side; apply pair_equal_spec in E; destruct E as [<- <-]
+  | dec_raw_end _ _ _ _ = _ => rewrite dec_raw_end_ok in E by inv_side; apply pair_equal_spec in E; destruct E as [<- <-]
+  | index_of ?site ?l ?i ?inp ?s = _ =>
+      let c := fresh "c" in let Hc := fresh "Hc" in let Ec := fresh "Ec" in
+      destruct (index_of_ok site l i inp s) as (c & Hc & Ec); [inv_side | rewrite Ec in E; apply pair_equal_spec in E; destruct E as [<- <-]; clear Ec]
+  | index ?site ?i ?inp ?s = _ =>
+      let c := fresh "c" in let Hc := fresh "Hc" in let Ec := fresh "Ec" in
+      destruct (index_ok site i inp s) as (c & Hc & Ec); [inv_side | rewrite Ec in E; apply pair_equal_spec in E; destruct E as [<- <-]; clear Ec]
+  | slice ?site ?a ?b ?inp ?s = _ =>
+      rewrite slice_ok in E by inv_side; apply pair_equal_spec in E; destruct E as [<- <-]
+  | read_byte _ _ = _ =>
+      let Hb := fresh "Hb" in let Hlt := fresh "Hlt" in
+      apply read_byte_inv in E; destruct E as [(Hb & Hlt & ->) | (Hlt & -> & ->)]
+  end.
